@@ -203,6 +203,7 @@ pub fn worker() {
         let res = match sub {
             "call" => run_call(&case),
             "diag" => diag_case(&case),
+            "history" => history_case(&case),
             other => json!({"e": "panic", "where": format!("unknown worker job {other}"), "id": 0, "message": ""}),
         };
         let mut o = stdout.lock();
@@ -339,4 +340,66 @@ pub fn diag_case(case: &J) -> J {
             json!({"e": "diag", "id": id, "src": src, "len": src.len(), "compile": "ok", "accepted": true, "diags": dj, "render": r1, "render_color": r2, "run": run})
         }
     }
+}
+
+// ---------------------------------------------------------------------------------------------
+// C14 at function level: the outcome of a call must not depend on which calls the same thread
+// evaluated before it (no hidden per-thread / static state).
+
+const NONDET: [&str; 12] = ["now", "random_bool", "random_bytes", "random_float", "random_int", "uuid_v4", "uuid_v7", "get_hostname",
+                            "get_env_var", "get_timezone_name", "uuid_from_friendly_id", "shannon_entropy"];
+
+fn strip_volatile(mut j: J) -> J {
+    if let Some(o) = j.as_object_mut() {
+        o.remove("ms");
+    }
+    j
+}
+
+/// One job = all matrix calls of one function.
+pub fn history_case(case: &J) -> J {
+    let f = case["f"].as_str().unwrap_or("").to_owned();
+    let calls: Vec<J> = case["calls"].as_array().cloned().unwrap_or_default();
+    if NONDET.contains(&f.as_str()) {
+        return json!({"e": "history", "f": f, "calls": 0, "excluded": calls.len(), "exempt": true, "diffs": []});
+    }
+    // baseline: each call alone on a fresh thread (a call that does not return in time is left out)
+    let mut base: Vec<Option<J>> = vec![];
+    let mut excluded = 0usize;
+    for c in &calls {
+        let (tx, rx) = mpsc::channel();
+        let cc = c.clone();
+        std::thread::spawn(move || {
+            let _ = tx.send(strip_volatile(run_call(&cc)));
+        });
+        match rx.recv_timeout(Duration::from_millis(2500)) {
+            Ok(r) if r["out"]["k"] != "panic" => base.push(Some(r)),
+            _ => {
+                excluded += 1;
+                base.push(None);
+            }
+        }
+    }
+    // the same calls one after the other on ONE thread, forwards and backwards
+    let mut diffs = vec![];
+    for order in ["forward", "backward"] {
+        let calls2 = calls.clone();
+        let base2 = base.clone();
+        let ord = order.to_owned();
+        let h = std::thread::spawn(move || {
+            let idx: Vec<usize> = if ord == "forward" { (0..calls2.len()).collect() } else { (0..calls2.len()).rev().collect() };
+            let mut d = vec![];
+            for i in idx {
+                if let Some(b) = &base2[i] {
+                    let r = strip_volatile(run_call(&calls2[i]));
+                    if &r != b && d.len() < 5 {
+                        d.push(json!({"order": ord, "src": b["src"], "alone": b["out"], "after_history": r["out"]}));
+                    }
+                }
+            }
+            d
+        });
+        diffs.extend(h.join().unwrap_or_default());
+    }
+    json!({"e": "history", "f": f, "calls": calls.len() - excluded, "excluded": excluded, "exempt": false, "diffs": diffs})
 }
